@@ -326,7 +326,8 @@ structure CtorParam where
 inductive Member where
   | prop (name : String) (access : Access) (isStatic readonly : Bool) (ty : Option Ty) (init : Option Init)
   | method (name : String) (access : Access) (isStatic : Bool) (kind : FnKind) (f : Fn)
-  | ctor (access : Access) (params : List CtorParam) (hasBody : Bool) (callsSuper : Bool)
+  /-- `isOverloadImpl`: the implementation that follows overload signatures -/
+  | ctor (access : Access) (params : List CtorParam) (hasBody : Bool) (callsSuper : Bool) (isOverloadImpl : Bool)
   /-- `#name` property or method -/
   | esPrivate
   | staticBlock
@@ -401,13 +402,16 @@ def transformMember (m : Member) (seenPrivateMethods : List String) :
         match init.bind fun e => inferType e .mutable with
         | some t => .ok ([], some (.prop name access isStatic false true false (some t) .dropped))
         | none => .error .missingType
-  | .ctor access params _ callsSuper =>
+  | .ctor access params _ callsSuper ov =>
     -- a parameter property needs a type of its own (annotation, or inferable default) unless private
     if params.any untypedParamProp then .error .missingType
     else
+      -- the properties are made first; only then does an overload implementation lose its signature
       let inserted := params.filterMap paramProp
       if access = .priv then .ok (inserted, some (.ctor .priv [] callsSuper))
-      else (handleParams (params.map (·.p))).map fun ps => (inserted, some (.ctor access ps callsSuper))
+      else
+        let ps := params.map (·.p)
+        (handleParams (if ov then overloadParams ps else ps)).map fun ps => (inserted, some (.ctor access ps callsSuper))
 
 structure ClassAcc where
   inserted : List OMember := []
@@ -420,7 +424,7 @@ def classStep (acc : ClassAcc) (m : Member) : Except Diag ClassAcc :=
   let hadPrivate := acc.hadPrivate || (match m with | .esPrivate => true | _ => false)
   -- a second private constructor, or a private one without a body, is dropped
   let skip := match m with
-    | .ctor .priv _ hasBody _ => acc.hadPrivateCtor || !hasBody
+    | .ctor .priv _ hasBody _ _ => acc.hadPrivateCtor || !hasBody
     | _ => false
   if skip then .ok { acc with hadPrivate := hadPrivate }
   else
@@ -431,7 +435,7 @@ def classStep (acc : ClassAcc) (m : Member) : Except Diag ClassAcc :=
             members := acc.members ++ om.toList,
             hadPrivate := hadPrivate,
             seen := (match m with | .method name .priv _ _ _ => name :: acc.seen | _ => acc.seen),
-            hadPrivateCtor := acc.hadPrivateCtor || (match m with | .ctor .priv _ _ _ => true | _ => false) }
+            hadPrivateCtor := acc.hadPrivateCtor || (match m with | .ctor .priv _ _ _ _ => true | _ => false) }
 
 /-- `transform_class`: the brand first (when there were `#` members), then the properties made from
 parameter properties, then the members in order -/
